@@ -192,7 +192,9 @@ def bounded(run):
             run.violation(key, what, witness=wit)
     run.notes['published_packs_in_C01_gap'] = gaps
     run.bound('all 4200 published packs of pach/SI.zip (complete for that finite set)')
-    sm = D.corpus_sample(None if thorough else 400, 'c10')
+    fixed = ['C/C=C=C=C/C', 'C/C=C=C=C\\C', 'C/C=C/C=C\\C', 'CC=[C@]=CC', 'C[C@H](N)C(=O)O', 'F/C=C/C=C=C=C/Cl', '[13CH3][C@@](F)(Cl)Br', '[Ti+4].[Cl-].[Cl-].[Cl-].[Cl-]',
+             '[Fe-4]', '[CH3] |^1:0|', 'C1=C/CCCCCC/1', 'O/N=C1/CCCC(C)C1']
+    sm = fixed + D.corpus_sample(None if thorough else 400, 'c10')
     items = [(i, s) for i, s in enumerate(sm)]
     for n, nt, viol in pmap(_roundtrip, [items[i::32] for i in range(32)]):
         run.case(n)
